@@ -442,7 +442,7 @@ def multi_name_exact_first(prog) -> List[str]:
             probs.append(f"{what}: the first scan matches under `{show_conds(conds_inside, it)[:80]}`, not under the exact test "
                          f"`col._name == name` (a sanitised look-alike placed earlier could win over the exactly named column)")
             return False
-        if len(lp.breaks) != 1 or list(lp.breaks[0][len(lp.conds):]) != list(conds_inside):
+        if not lp.found and (len(lp.breaks) != 1 or list(lp.breaks[0][len(lp.conds):]) != list(conds_inside)):
             probs.append(f"{what}: the exact scan does not stop at the first exactly named column")
             return False
         return True
@@ -469,10 +469,10 @@ def multi_name_exact_first(prog) -> List[str]:
         else:
             Ls = F[1]
             lp = it.loops[Ls]
-            inside = lp.breaks[0][len(lp.conds):] if len(lp.breaks) == 1 else ()
+            inside = lp.found[0] if len(lp.found) == 1 else (lp.breaks[0][len(lp.conds):] if len(lp.breaks) == 1 and not lp.found else ())
             if lp.conds[len(it.loops[Ln].conds):]:
                 probs.append(f"{what}: the exact scan runs only under `{show_conds(lp.conds[len(it.loops[Ln].conds):], it)[:60]}`")
-            if scan_ok(Ls, inside, what) and (F[2] != ("elem", cols, Ls) or F[3] != SNONE):
+            if scan_ok(Ls, inside, what) and F[2] != ("elem", cols, Ls):
                 probs.append(f"{what}: the exact match does not yield the matched column itself")
     else:
         probs.append(f"{what}: columns are appended in {len(first.loops)} nested loops")
